@@ -9,13 +9,19 @@
   from `SparseV.Generated.Npz`, regenerated from /repo on every run (tie T1).  What is hand-written
   here (tie T2, compared with the implementation by harness/c14.py) is the behaviour of `np.savez` /
   `np.load` on a member (`None` becomes an object array; object arrays are refused without
-  `allow_pickle`), the checks of the two constructors on the load path, and CPython's copy protocol.
+  `allow_pickle`), the order in which the two constructors on the load path run their checks, and CPython's
+  copy protocol.  The consistency checks themselves (`Gen.cooCtorChecks`, `Gen.shapeEltOk`,
+  `Gen.gcxsCtorChecks`, `Gen.gcxsShapeEltOk`) are translated from `COO.__init__`, `SparseArray.__init__` and
+  `GCXS.__init__` by tools/targets.d/C14.py (tie T1).
 
   Arrays are *raw representations*: all index arrays are `List Int` exactly as stored; nothing is
   interpreted, because `load_npz` interprets nothing.
 -/
 import SparseV.Model.Basic
 import SparseV.Generated.Npz
+import SparseV.Generated.Compressed
+import SparseV.Generated.CooCore
+import SparseV.Generated.SparseArray
 namespace SparseV.Npz
 open SparseV
 
@@ -43,6 +49,12 @@ inductive Payload (α : Type) where
   | ints (v : List Int)
   | mat (m : Mat)
   deriving DecidableEq, Repr
+
+/-- number of entries of a 1-d member -/
+def Payload.count {α} : Payload α → Nat
+  | .vals v => v.length
+  | .ints v => v.length
+  | _ => 0
 
 /-- the content of an npz file as `np.load` presents it: member name ↦ payload (first occurrence wins) -/
 abbrev Members (α : Type) := List (String × Payload α)
@@ -144,13 +156,16 @@ def fixCoords (shape : List Int) (c : Mat) : Mat :=
   if shape ≠ [] ∧ c.nrows * c.ncols = 0 then Mat.empty shape.length else c
 
 /-- `COO(coords, data, shape, sorted=True, has_duplicates=False, fill_value=fill)`: with these promises the
-constructor runs no normalisation pass; what is left are its consistency checks (all ValueError). -/
+constructor runs no normalisation pass; what is left are its consistency checks (all ValueError):
+`SparseArray.__init__` on the shape (`Gen.shapeEltOk` per extent), then the GENERATED `Gen.cooCtorChecks`
+on the lengths — for every shape, `()` included.  A `Mat` is 2-dimensional by type. -/
 def cooCtor {α} (c : Mat) (d : List α) (s : List Int) (f : α) : Except Err (Arr α) :=
   let c := fixCoords s c
-  if ¬ (s.all fun e => decide (0 ≤ e)) then .error .value
-  else if s ≠ [] ∧ d.length ≠ c.ncols then .error .value
-  else if s ≠ [] ∧ s.length ≠ c.nrows then .error .value
-  else .ok (.coo s c d f)
+  if ¬ (s.all Gen.shapeEltOk) then .error .value
+  else
+    match Gen.cooCtorChecks 2 d.length c.ncols s.length c.nrows with
+    | .error e => .error e
+    | .ok () => .ok (.coo s c d f)
 
 /-- `load_npz`: an empty `compressed_axes` member stands for `None` iff the generated flag says so -/
 def decodeAxes (l : List Int) : Option (List Int) :=
@@ -172,13 +187,38 @@ def checkAxes (axesOk : List Int → Bool) (ndim : Nat) : Option (List Int) → 
 def normAxes (s : List Int) (ca : Option (List Int)) : Option (List Int) :=
   if s.length = 1 then none else ca
 
-/-- `GCXS((data, indices, indptr), shape=…, fill_value=…, compressed_axes=…)`: no check on the index arrays
-or the shape; the result is always of exact type GCXS. -/
+/-- `reduce(operator.mul, (int(shape[a]) for a in compressed_axes), 1)`: the number of compressed rows
+(the axes are within `[0, ndim)` when this is evaluated: `check_compressed_axes` ran before) -/
+def rowsOf (s : List Int) : List Int → Int
+  | [] => 1
+  | a :: as => s.getD a.toNat 0 * rowsOf s as
+
+/-- the consistency checks of `GCXS.__init__` on `(data, indices, indptr)`: the GENERATED
+`Gen.gcxsCtorChecks` on the lengths, the two end entries of `indptr` and the product of the compressed
+extents.  `data` is 1-dimensional by type.  `indptr[0]` / `indptr[-1]` are evaluated only after
+`len(indptr) = rows + 1 ≥ 1` has passed, so the defaults for an empty `indptr` are never looked at.
+With `compressed_axes = None` and two or more dimensions the product iterates over `None`: TypeError, after
+the checks that come before it (those are the generated checks at `ndim` cut down to at most 1). -/
+def gcxsChecks {α} (d : List α) (i p : List Int) (ca : Option (List Int)) (s : List Int) : Except Err Unit :=
+  let shapeOk := s.all Gen.gcxsShapeEltOk
+  match ca with
+  | some l => Gen.gcxsCtorChecks 1 shapeOk s.length d.length i.length p.length (rowsOf s l) (p.headD 0) (p.getLastD 0)
+  | none =>
+    match Gen.gcxsCtorChecks 1 shapeOk (min s.length 1) d.length i.length 0 0 0 0 with
+    | .error e => .error e
+    | .ok () => if 2 ≤ s.length then .error .type else .ok ()
+
+/-- `GCXS((data, indices, indptr), shape=…, fill_value=…, compressed_axes=…)`: `check_compressed_axes`, the
+`None` for one dimension, then the consistency checks; the contents of `indices` and the interior of `indptr`
+are not looked at ("their contents are trusted").  The result is always of exact type GCXS. -/
 def gcxsCtor {α} (axesOk : List Int → Bool) (d : List α) (i p : List Int) (ca : Option (List Int))
     (s : List Int) (f : α) : Except Err (Arr α) :=
   match checkAxes axesOk s.length ca with
   | .error e => .error e
-  | .ok () => .ok (.gcxs true s d i p (normAxes s ca) f)
+  | .ok () =>
+    match gcxsChecks d i p (normAxes s ca) s with
+    | .error e => .error e
+    | .ok () => .ok (.gcxs true s d i p (normAxes s ca) f)
 
 /-- the `return Class(...)` of a `try` block; every field is taken from the fetched member of its own name -/
 def construct {α} (axesOk : List Int → Bool) (cls : String) (f : Members α) : Except Err (Arr α) :=
@@ -218,16 +258,40 @@ def strictlyIncreasing : List Int → Bool
   | a :: b :: rest => decide (a < b) && strictlyIncreasing (b :: rest)
   | _ => true
 
+/-- a member set whose lengths and end pointers are consistent but whose index *contents* are not (an index far
+outside the 2×2 array, `indptr` not monotone): the constructor's constant-time checks do not look at them
+(witness of `C14.load_contents_unchecked`; replayed on the real code by harness/c14.py) -/
+def uncheckedWitness : Members Int :=
+  [("data", .vals [5, 7]), ("shape", .ints [2, 2]), ("fill_value", .val 0), ("indices", .ints [9, -4]),
+   ("indptr", .ints [0, 3, 2]), ("compressed_axes", .ints [0])]
+
 /-! ## invariants of the arrays the library builds -/
 
 def Mat.WF (c : Mat) : Prop := c.rows.length = c.nrows ∧ ∀ r ∈ c.rows, r.length = c.ncols
 instance (c : Mat) : Decidable c.WF := by unfold Mat.WF; infer_instance
 
-/-- invariants of a COO / GCXS object as the library constructs it (nothing about sortedness: persistence
-does not depend on it) -/
+/-- what the consistency checks of `GCXS.__init__` establish about `(data, indices, indptr)`:
+one value per index (one dimension and up); with two dimensions and up the axes are given, `indptr` has one
+entry per compressed row plus one, starts at 0 and ends at `len(indices)`.  Nothing about the *contents* of
+`indices` or the interior of `indptr`: the constructor does not look at them. -/
+def GcxsStruct {α} (s : List Int) (d : List α) (i p : List Int) (ca : Option (List Int)) : Prop :=
+  (s ≠ [] → d.length = i.length) ∧
+  (2 ≤ s.length → ∃ l, ca = some l ∧ (p.length : Int) = rowsOf s l + 1 ∧ p.head? = some 0 ∧ p.getLast? = some (i.length : Int))
+
+instance {α} (s : List Int) (d : List α) (i p : List Int) (ca : Option (List Int)) : Decidable (GcxsStruct s d i p ca) := by
+  unfold GcxsStruct
+  cases ca with
+  | none => exact decidable_of_iff ((s ≠ [] → d.length = i.length) ∧ ¬ 2 ≤ s.length) (by simp)
+  | some l =>
+    exact decidable_of_iff ((s ≠ [] → d.length = i.length) ∧
+      (2 ≤ s.length → (p.length : Int) = rowsOf s l + 1 ∧ p.head? = some 0 ∧ p.getLast? = some (i.length : Int))) (by simp)
+
+/-- invariants of a COO / GCXS object as the library constructs it — exactly what the two constructors check
+(nothing about sortedness or the range of the stored indices: persistence does not depend on them) -/
 def Arr.WF {α} (axesOk : List Int → Bool) : Arr α → Prop
-  | .coo s c d _ => (∀ e ∈ s, 0 ≤ e) ∧ (s ≠ [] → c.WF ∧ c.nrows = s.length ∧ d.length = c.ncols)
-  | .gcxs _ s _ _ _ ca _ =>
+  | .coo s c d _ => (∀ e ∈ s, 0 ≤ e) ∧ c.WF ∧ c.nrows = s.length ∧ d.length = c.ncols
+  | .gcxs _ s d i p ca _ =>
+    (∀ e ∈ s, 0 ≤ e) ∧ GcxsStruct s d i p ca ∧
     match ca with
     | none => True
     | some l => l ≠ [] ∧ l.length ≠ s.length ∧ s.length ≠ 1 ∧ axesOk l = true ∧ ∀ a ∈ l, 0 ≤ a ∧ a < (s.length : Int)
